@@ -145,7 +145,7 @@ class Machine:
                     self.halt = "jump-to-unknown-label"
                     return
         elif k == "JumpLink":
-            if n.get("name") == "__return__":
+            if n.get("name") == "<return>":
                 return self._ret()
             tgt = self.p.label_at.get(n["name"])
             if tgt is None:
